@@ -292,6 +292,17 @@ def defaults_rule(run, model, rule="C05.defaults"):
                 if stored != {has_default}:
                     bad = "a parameter %s a default is %s in the defaults (kept: %s)" % ("with" if has_default else "without", "not included" if has_default else "included", sorted(stored))
     run.check(bad is None, rule, fi.qual, "kwdefaults[name] = default exactly for the parameters that have one", bad or "", fi.loc())
+    # ... and every call is resolved with that table: the wrappers hand it to the resolver as it is
+    table_fi = model.func("_checkers.resolve_kwdefaults")
+    for role, ck in gates.checkers(model).items():
+        if ck.resolver is None:
+            continue
+        resolver = ck.resolver["callee"]
+        b = bind_call(resolver, ck.resolver["call"]) or {}
+        dp = resolver.params[1] if len(resolver.params) > 1 else None
+        t = strip_sites(ck.flow.term(b[dp], ck.resolver["node"])) if dp in b else None
+        okt = t is not None and t[0] == "call" and fi_of_term(model, t[1]) is table_fi
+        run.check(okt, rule, ck.fi.qual + ":defaults-table", "the resolver gets the table of the function's default values on every call", "the resolver gets %s as the table of defaults, not the table computed from the function's signature: for some calls (surplus positionals or extra keywords while a named parameter keeps its default) the contracts do not see the default the body receives" % (show(t, 80) if t is not None else "nothing"), ck.loc(ck.resolver["node"]), None, first_line(ck.resolver["node"].stmt))
 
 
 def select_sites(run, model, rule="C05.select"):
@@ -349,6 +360,7 @@ def run(run, model):
     # hides _ARGS/_KWARGS in a copy), and an error factory gets the call's mapping, not the condition's selection
     from . import msg, loops
     run.do(msg.hide_placeholders, model, "C05.mapping-untouched")
+    run.do(gates.c08_place, model, "C05.old-bound")
     for role, ck in gates.checkers(model).items():
         for kind, depth in (("PRE", 2), ("POST", 1)):
             h = loops.helper_of(model, ck, kind)
